@@ -209,18 +209,25 @@ def transform_inverse(how: dict, x, dist_args: dict):
 # ---------------------------------------------------------------------------------
 
 
+def akey(it: dict) -> str:
+    """The key of a strong item in a valuation."""
+    if it.get("transform"):
+        return it["name"] + "_transformed"
+    return it["name"]
+
+
 def assignable(program: dict) -> list[dict]:
-    """The names the check may assign, with their lattices: [{name, lattice, via}]."""
+    """The strong items the check may assign: [{name (valuation key), target (liesel
+    variable or node name), lattice, via}]."""
     out = []
     for it in program["items"]:
         if it["k"] != "strong":
             continue
         if len(it["lattice"]) < 1:
             continue
-        name = it["name"]
-        if it.get("transform"):
-            name = name + "_transformed"
-        out.append({"name": name, "lattice": it["lattice"], "via": "node" if it.get("wrap") == "value" else "var"})
+        value = it.get("wrap") == "value"
+        target = it.get("node_name", it["name"]) if value else akey(it)
+        out.append({"name": akey(it), "target": target, "item": it["name"], "lattice": it["lattice"], "via": "node" if value else "var"})
     return out
 
 
@@ -236,8 +243,8 @@ def initial_valuation(program: dict) -> dict:
                 val[it["name"] + "_transformed"] = z0
                 env[it["name"]] = f64(it["init"])
             else:
-                val[it["name"]] = f64(it["lattice"][0])
-                env[it["name"]] = val[it["name"]]
+                val[akey(it)] = f64(it["lattice"][0])
+                env[it["name"]] = val[akey(it)]
         elif it["k"] == "weak":
             env[it["name"]] = FN[it["fn"]](np, _consts(it), *[_ref_value(r, env, {}) for r in it["args"]])
     return val
@@ -290,7 +297,7 @@ def evaluate(program: dict, valuation: dict) -> dict:
                 # `observed` stays on the (now distribution-less) original variable
                 add_dist(name + "_transformed", name + "_transformed", it["dist"], x, False, par, it.get("per_obs", True), extra=ldj)
             else:
-                env[name] = np.asarray(valuation[name], dtype=np.float64)
+                env[name] = np.asarray(valuation[akey(it)], dtype=np.float64)
                 if it.get("dist"):
                     add_dist(name, name, it["dist"], env[name], obs, par, it.get("per_obs", True))
         elif k == "weak":
